@@ -353,6 +353,11 @@ func (w *World) callData(src, dst string, call string) (string, []byte) {
 		// the nested send fails in the post-transaction hook
 		return strings.ToLower(syscontracts.AgentContractAddress), mustPack(agentcontract.AgentContract.ABI, "send",
 			w.Wrap[dst][src], strings.ToLower(w.Marker.String()), "unknown-chain", big.NewInt(1))
+	case "nestok":
+		// the agent contract forwards what it received back to the chain the packet came from (a send nested in the
+		// receive): receiver there is that chain's user, refunds go to this chain's user
+		return strings.ToLower(syscontracts.AgentContractAddress), mustPack(agentcontract.AgentContract.ABI, "send",
+			userOf(w, dst).Eth, strings.ToLower(userOf(w, src).Eth.String()), w.ID[src], big.NewInt(0))
 	case "hookfail":
 		// EVM execution succeeds and emits the staking event; the native action (unknown validator) fails in the post-tx hook
 		return strings.ToLower(syscontracts.StakingContractAddress), mustPack(stakingcontract.StakingContract.ABI, "delegate", "invalid-validator", big.NewInt(1))
@@ -379,7 +384,7 @@ func (w *World) Send(s SendSpec) TxResult {
 	recv := ""
 	if s.Kind != "none" {
 		recv = strings.ToLower(userOf(w, s.Dst).Eth.String())
-		if s.Call == "nestfail" {
+		if s.Call == "nestfail" || s.Call == "nestok" {
 			recv = strings.ToLower(syscontracts.AgentContractAddress) // the agent receives the tokens it is asked to forward
 		}
 	}
